@@ -13,3 +13,44 @@ mod source;
 
 #[cfg(test)]
 mod test_helpers;
+
+/// Seams for external verification harnesses. Compiled only with feature `verif`.
+#[cfg(feature = "verif")]
+pub mod verif {
+    pub use crate::source::Source;
+    use ironplc_dsl::core::FileId;
+    use std::cell::RefCell;
+
+    thread_local! {
+        static ORDER: RefCell<Option<Vec<usize>>> = const { RefCell::new(None) };
+    }
+
+    /// Sets (or clears) the permutation applied to the file iteration order on this thread.
+    pub fn set_order(perm: Option<Vec<usize>>) {
+        ORDER.with(|o| *o.borrow_mut() = perm);
+    }
+
+    /// Sorts `items` by their file id and then applies the permutation set for this thread.
+    /// Without a permutation (or with one of the wrong length) the items are returned untouched.
+    pub fn reorder<T>(items: Vec<T>, keys: &[FileId]) -> Vec<T> {
+        let perm = ORDER.with(|o| o.borrow().clone());
+        let perm = match perm {
+            Some(p) if p.len() == items.len() => p,
+            _ => return items,
+        };
+        let mut idx: Vec<usize> = (0..items.len()).collect();
+        idx.sort_by_key(|i| keys[*i].to_string());
+        let mut slots: Vec<Option<T>> = items.into_iter().map(Some).collect();
+        perm.iter()
+            .map(|p| slots[idx[*p]].take().expect("permutation"))
+            .collect()
+    }
+
+    /// Runs the language server on the given connection (same code path as `lsp::start`).
+    pub fn serve(
+        connection: lsp_server::Connection,
+        project: crate::lsp_project::LspProject,
+    ) -> Result<(), String> {
+        crate::lsp::verif_start_with_connection(connection, project)
+    }
+}
